@@ -69,6 +69,13 @@ impl Session {
         }
     }
 
+    /// Verification builds only (`cargo kani`): a session over an existing store and
+    /// transaction manager, without constructing a whole `GrafeoDB`.
+    #[cfg(kani)]
+    pub fn verif_new(store: Arc<LpgStore>, tx_manager: Arc<TransactionManager>) -> Self {
+        Self::new(store, tx_manager, Arc::new(QueryCache::new(0)))
+    }
+
     /// Creates a new session with adaptive execution configuration.
     #[allow(dead_code)]
     pub(crate) fn with_adaptive(
